@@ -98,8 +98,8 @@ theorem builtin_fidelity (s : SendCfg) (r : RecvCfg) (env : Env) (e : ExcRec)
   refine ⟨dumpExc_ok s e hnf hwalk, by simpa using hload, ?_⟩
   refine ⟨rfl, ?_, ?_, ?_, ?_⟩
   · simp [received, walkArgs_once e e.dir hargs1]
-  · intro _ d hd a _ hv hs ha hdump
-    rw [received_get_attr s e _ d a hnodup hd hv hs ha]
+  · intro _ d hd a hdata hv hs ha hdump
+    rw [received_get_attr s e _ d a hnodup hd hv hs hdata ha]
     simp [sendable, hdump]
   · intro _
     rw [received_get_tb]
@@ -213,6 +213,15 @@ theorem two_hops_same_class (s2 : SendCfg) (r2 : RecvCfg) (env2 : Env) (o1 : Exc
   refine ⟨dumpExc_ok s2 e2 hnf hwalk, ?_, by simp [ExcObj.type, getExceptionClass, received, ho]⟩
   rw [loadExc_record s2 r2 env2 e2 _ false _ hres, instantiate_ok env2 _ _ _ _ _ _ (build_record env2 s2 e2 _ hw), hev]
   rfl
+
+/-- **no method is shadowed**: every attribute `dump` sends comes from a `dir` entry whose value is not callable — so `load`
+never plants an instance attribute over a method of the rebuilt class (`e.add_note(...)` keeps working) and no method's repr,
+with the address it contains, travels.  Rests on the measured `Gen.Vinegar.skipsCallables`. -/
+theorem no_method_shadowed (e : ExcRec) : ∀ p ∈ sentAttrs e.dir,
+    ∃ d ∈ e.dir, d.name = p.1 ∧ d.isData = true ∧ skipped d.name = false := by
+  intro p hp
+  obtain ⟨d, hd, o, _, rfl, hdrop⟩ := sentAttrs_origin e.dir p hp
+  exact ⟨d, hd, rfl, (skipped_of_dropped_false d hdrop).2, (skipped_of_dropped_false d hdrop).1⟩
 
 /-! ### the witness of the known finding -/
 
@@ -487,8 +496,7 @@ example : requesterSees (loadExc ⟨false, false, false⟩ sampleEnv
     = .raised ⟨.real (.str b) [75, 101, 121, 69, 114, 114, 111, 114], [.str [107], .str [91, 49, 93]],
         [(Gen.Vinegar.remoteTbAttr, .str Gen.Vinegar.tracebackDenied),
          (Gen.Vinegar.versionAttr, .str Gen.Vinegar.versionString),
-         ([100, 101, 116, 97, 105, 108], .int 3),
-         ([97, 100, 100, 95, 110, 111, 116, 101], .str [60, 109, 62])]⟩ := by rfl
+         ([100, 101, 116, 97, 105, 108], .int 3)]⟩ := by rfl
 /-- the traceback module fails on the exception: it is still dumped, with the "unavailable" literal -/
 example : dumpExc defaultSendCfg { sampleRec with tbText := .error .attributeError }
     = .ok (recordPayload defaultSendCfg sampleRec (.str Gen.Vinegar.tracebackUnavailable)) := by rfl
@@ -500,7 +508,7 @@ example : (loadExc ⟨false, true, false⟩ sampleEnv
       (recordPayload defaultSendCfg { sampleRec with cls := ⟨[109], [69], .custom⟩ } (.str [116]))).out
     = .ok (.exc ⟨.generic [109, 46, 69], [.str [107], .str [91, 49, 93]],
         [(Gen.Vinegar.remoteTbAttr, .str [116]), (Gen.Vinegar.versionAttr, .str Gen.Vinegar.versionString),
-         ([100, 101, 116, 97, 105, 108], .int 3), ([97, 100, 100, 95, 110, 111, 116, 101], .str [60, 109, 62])]⟩) := by
+         ([100, 101, 116, 97, 105, 108], .int 3)]⟩) := by
   rfl
 /-- crafted payloads: `True` is the StopIteration marker; a 3-tuple is a ValueError; `("builtins","int")` is generic -/
 example : (loadExc defaultRecvCfg sampleEnv (.bool true)).out = .ok .stopIterationClass := by rfl
